@@ -585,6 +585,13 @@ func (w *watch) watch(fsw *fsnotify.Watcher, m *sync.Mutex, refresh func() error
 			m.Lock()
 			if event.Op == fsnotify.Remove && w.tracked[event.Name] {
 				w.update(dirErrors, event.Name)
+			} else if event.Op == fsnotify.Rename && w.tracked[event.Name] {
+				// A renamed Spec directory is gone from where we expect it.
+				// The watch follows it to its new name, so drop the watch and
+				// treat the directory as removed to get it watched again if
+				// it is recreated.
+				_ = watch.Remove(event.Name)
+				w.update(dirErrors, event.Name)
 			} else {
 				w.update(dirErrors)
 			}
